@@ -219,6 +219,15 @@ func (m *Machine) Explore(fn *ssa.Function) *Result {
 		}
 		res.Paths++
 		res.Steps += m.i.steps
+		if !m.i.nontrivial {
+			// a path is also non-trivial when its path condition constrains a symbolic input
+			for _, d := range x.trail {
+				if d.choice < len(d.alts) && d.alts[d.choice] != "true" {
+					m.i.nontrivial = true
+					break
+				}
+			}
+		}
 		if m.i.nontrivial {
 			res.Nontrivial++
 		}
